@@ -142,6 +142,13 @@ func MakeProfile(prop string, seed uint64, tier string) *Profile {
 				p.SunsetMs = int64(500 + r.Intn(20000))
 			}
 		}
+		if r.Chance(1, 4) {
+			// through the HTTP handlers: rate-limit and eviction answers must be 503 + Retry-After
+			p.HTTP = true
+			p.RootsW = 4
+			p.PoolSize = 1 + r.Intn(4)
+			p.Tag += "+http"
+		}
 	case "C07":
 		p.DupPct = []int{30, 50, 70}[r.Intn(3)]
 		if faulty {
